@@ -101,10 +101,16 @@ def gen_for(ck, sc, nsim, nedges, thorough):
                 out["scheds"].append(h)
     # 2c. negative controls: the model with one fix switched off must violate an invariant; its counterexample is replayed
     for fix in ("FixWake", "FixAttach", "FixCount", "FixJoin"):
-        if not fs.FIX[fix] or (not thorough and name not in NEG_QUICK.get(fix, ())):
+        if not fs.FIX[fix] or (not thorough and name not in NEG_QUICK.get(fix, ())) or (thorough and sc.get("simonly")):
             continue
-        rn = ck.tlc("fanout", "MCFanout", "n.cfg", files={"n.cfg": fs.cfg(sc, "check", fix={fix: False}, invariants=INVS)}, workers=2,
-                    timeout=900, label="negative control %s without %s" % (name, fix), must_pass=False)
+        try:
+            rn = ck.tlc("fanout", "MCFanout", "n.cfg", files={"n.cfg": fs.cfg(sc, "check", fix={fix: False}, invariants=INVS)}, workers=2,
+                        timeout=900, label="negative control %s without %s" % (name, fix), must_pass=False)
+        except Infra:
+            if name in NEG_QUICK.get(fix, ()):
+                raise      # the scenarios chosen to exhibit the defect must do so
+            ck.log("negative control %s without %s: no violation found within 15 minutes (the scenario need not exhibit this defect)" % (name, fix))
+            continue
         out["neg"][fix] = rn.violated[:1]
         if rn.violated:
             h = rn.last_seq("hist")
